@@ -72,6 +72,8 @@ impl MarkState {
             if old_value == self.state {
                 return false;
             }
+            #[cfg(feature = "mmtk_verif")]
+            crate::verif::gc::yp(crate::verif::gc::Site::TestAndMark);
 
             if VM::VMObjectModel::LOCAL_MARK_BIT_SPEC
                 .compare_exchange_metadata::<VM, u8>(
